@@ -7,7 +7,7 @@ PROPS = ["Props/C13.v"]
 GEN = ['LexConst.v']
 MODEL_IS_SPEC = False
 RULE = ("query strings: random code points (ASCII, Latin-1, BMP, non-BMP) of length 0-1024, token soup over the query alphabet, near-miss mutants of valid queries, "
-        "bracket/parenthesis/filter nesting up to depth 32 (balanced and off by one), huge number literals; every string is compiled; those that compile are evaluated on a "
+        "bracket/parenthesis/filter nesting up to depth 32 (balanced and off by one), huge number literals, operand/operator soup inside filters (bare, parenthesised, as function argument); every string is compiled; those that compile are evaluated on a "
         "battery of JSON values (every kind as root and as the child under test); every outcome is classified (returned / JSONPathError subclass / any other exception) and "
         "str(error) is produced; the same classification is computed by the lexer+parser+evaluator model; a case fails on any exception that is not a JSONPathError or on a "
         "model mismatch; non-trivial = string longer than 2 characters; distinct = distinct strings")
@@ -30,6 +30,10 @@ norm_reply = harness.norm_reply
 
 VALUES = [None, True, False, 0, 1, -1.5, "", "a", [], [1], {}, {"a": 1}, [0, False, "", None, [], {}, "x", 2.5, {"a": {"b": [1, {"a": None}]}}, [[1, 2], ["a"]]],
           {"a": [1, 2, {"b": "x"}], "b": "y", "c": {"a": 0}}]
+
+
+SOUP = ["@.a", "@.b", "@", "1", "2", "'x'", "true", "null", "$.c", "count(@.*)", "length(@.a)", "value(@.a)", "!@.b", "(@.b)", "!", "==", "!=", "<", ">=",
+        "&&", "||", "(", ")", ",", "@.a", "1", "@[0]", "-1", "1.5", "match(@.a, 'x')"]
 
 
 def nest(rng, depth):
@@ -79,6 +83,11 @@ def cases(ctx, budget):
             if q in body.replace("\\\\", "").replace("\\" + q, ""): body = body.replace(q, "")
             text = rng.choice(["$[%s%s%s]", "$[?@==%s%s%s]", "$[?match(@, %s%s%s)]", "$..[%s%s%s, 0]"]) % (q, body, q)
             if rng.random() < 0.1: text = text[:rng.randint(2, len(text))]
+        elif r < 0.8 and i % 2:
+            # operand/operator soup inside a filter, bare, parenthesised or as a function argument: a token where an operator belongs,
+            # an operator where an operand belongs, several operands in a row
+            soup = " ".join(rng.choice(SOUP) for _ in range(rng.randint(2, 6)))
+            text = rng.choice(["$[?(%s)]", "$[?%s]", "$[?length((%s)) == 1]", "$[?@.a && (%s)]", "$[?!(%s)]", "$[?count(@[?(%s)]) > 0]", "$[?((%s))]"]) % soup
         elif r < 0.8: text = "$[?@.a == %s%s]" % (rng.choice(["", "-"]), rng.choice(["1e400", "1" + "0" * 400, "1e-400", "0." + "0" * 400 + "1", "1e99999", "9" * 30 + "." + "9" * 30, "1E+309"]))
         else:
             base = gen.render_query(rng, gen.rand_query(rng, names=gen.NAMES if rng.random() < 0.3 else gen.SIMPLE_NAMES, depth=rng.randint(1, 3)))
